@@ -1,4 +1,6 @@
-import BiotiteModel.Proofs.C11
+import BiotiteModel.Proofs.C11Helpers
+import BiotiteModel.Proofs.C11MsaFinal
+import BiotiteModel.Proofs.C11Accept
 import BiotiteModel.Gen.C11
 /-!
 # C11 — property theorems (alignment traces through every conversion; progressive MSA)
@@ -38,6 +40,51 @@ theorem C11_codes_symbols {α : Type} (seq : List α) (k : Nat) (t : Trace) (row
     row.filterMap id = (covered t k).filterMap (fun j => seq[j]?) :=
   codes_row seq k t row h
 
+/-- Gapped strings and back for the **whole alignment** (columns), general form with start offsets: for a
+rectangular trace of at least two sequences whose rows are contiguous (`covered t k = s k, s k + 1, …`), with
+indices inside the sequences and no symbol equal to the gap character, `get_gapped_sequences` succeeds and
+`trace_from_strings` of the result is the trace with every row shifted to start at 0. -/
+theorem C11_strings_roundtrip_cols (seqs : List (List Char)) (t : Trace) (s m : Nat → Nat)
+    (hn : 2 ≤ seqs.length) (hrect : ∀ c ∈ t, c.length = seqs.length)
+    (hsym : ∀ seq ∈ seqs, ∀ c ∈ seq, c ≠ '-')
+    (hcov : ∀ k, k < seqs.length → covered t k = List.range' (s k) (m k))
+    (hin : ∀ k (h : k < seqs.length), ∀ j ∈ covered t k, j < seqs[k].length) :
+    ∃ strs, gappedStrings seqs t = .ok strs ∧ traceFromStrings strs = .ok (shiftTrace s t) := by
+  obtain ⟨strs, h1, _, _, h4⟩ := strings_roundtrip_cols seqs t s m hn hrect hsym hcov hin
+  exact ⟨strs, h1, h4⟩
+
+/-- … and for rows that start at index 0: `traceFromStrings (gappedStrings seqs t) = t`. -/
+theorem C11_strings_roundtrip_whole (seqs : List (List Char)) (t : Trace) (m : Nat → Nat)
+    (hn : 2 ≤ seqs.length) (hrect : ∀ c ∈ t, c.length = seqs.length)
+    (hsym : ∀ seq ∈ seqs, ∀ c ∈ seq, c ≠ '-')
+    (hcov : ∀ k, k < seqs.length → covered t k = List.range (m k))
+    (hin : ∀ k (h : k < seqs.length), ∀ j ∈ covered t k, j < seqs[k].length) :
+    ∃ strs, gappedStrings seqs t = .ok strs ∧ traceFromStrings strs = .ok t := by
+  obtain ⟨strs, h1, _, _, h4⟩ := strings_roundtrip_cols seqs t (fun _ => 0) m hn hrect hsym
+    (fun k hk => by rw [hcov k hk, List.range_eq_range']) hin
+  exact ⟨strs, h1, by rw [h4, shiftTrace_zero]⟩
+
+/-- FASTA round trip of the whole alignment (`set_alignment` then `get_alignment`, `_` as additional gap
+character): a trace that covers every sequence completely comes back unchanged together with the sequences. -/
+theorem C11_fasta_roundtrip_cols (seqs : List (List Char)) (t : Trace)
+    (hn : 2 ≤ seqs.length) (hrect : ∀ c ∈ t, c.length = seqs.length)
+    (hsym : ∀ seq ∈ seqs, ∀ c ∈ seq, c ≠ '-' ∧ c ≠ '_')
+    (hcov : ∀ k (h : k < seqs.length), covered t k = List.range seqs[k].length) :
+    ∃ strs, gappedStrings seqs t = .ok strs ∧ fastaGet ['_'] strs = .ok (seqs, t) :=
+  fasta_roundtrip_cols seqs t hn hrect hsym hcov
+
+/-- `get_codes` as a matrix: transposed it is, column by column, the code of every sequence in that column
+(`colCodes`).  The model's codes are unbounded naturals and the gap is a separate value, so the statement is
+independent of any integer dtype: an entry is a gap iff the trace entry is a gap, otherwise it *is* the code. -/
+theorem C11_codes_cols {α : Type} (seqs : List (List α)) (t : Trace) (codes : List (List (Option α)))
+    (h : codesFrom t 0 seqs = .ok codes) :
+    codes = (seqs.zipIdx 0).map (fun p => t.map (codeOf p.1 p.2)) ∧ transpose t.length codes = t.map (colCodes seqs) :=
+  ⟨codesFrom_spec t seqs 0 codes h, getCodes_cols seqs t codes h⟩
+
+example : gappedStrings [['A', 'C'], ['G']] [[some 0, none], [some 1, some 0]] = .ok [['A', 'C'], ['-', 'G']] := by decide
+example : traceFromStrings [['A', 'C'], ['-', 'G']] = .ok [[some 0, none], [some 1, some 0]] := by decide
+example : getCodes [[7, 70000], []] [[some 1, none]] = .ok [[some 70000], [none]] := by decide
+
 example : gappedStr ['A', 'C', 'G', 'T'] [[some 1, some 0], [none, some 1], [some 2, none]] 0 = .ok ['C', '-', 'G'] := by decide
 example : covered [[some 1, some 0], [none, some 1], [some 2, none]] 0 = List.range' 1 2 := by decide
 example : numberRow 1 ['C', '-', 'G'] = [some 1, none, some 2] := by decide
@@ -53,6 +100,63 @@ theorem C11_helpers_valid {n : Nat} {t : Trace} (h : Valid n t) :
 
 example : validB 2 [[some 0, none], [some 1, some 0], [none, some 1]] = true := by decide
 example : removeTerminalGaps 2 [[some 0, none], [some 1, some 0], [none, some 1]] = .ok [[some 1, some 0]] := by decide
+
+/-- `find_terminal_gaps` = (first column at which every sequence has started, one past the last column at which
+no sequence has ended), both defined column by column (`allStarted`, `noneEnded`); ValueError only without
+sequences.  Sequences without any symbol (e.g. empty sequences) give `start = number of columns`, `stop = 0`. -/
+theorem C11_terminal_gaps_spec (n : Nat) (t : Trace) :
+    (n = 0 → findTerminalGaps n t = .error .valueError) ∧
+    (0 < n → ∃ a b, findTerminalGaps n t = .ok (a, b) ∧ a ≤ t.length ∧ b ≤ t.length ∧
+      ∀ i, i < t.length → ((allStarted n t i = true ↔ a ≤ i) ∧ (noneEnded n t i = true ↔ i < b))) :=
+  findTerminalGaps_spec n t
+
+/-- `remove_terminal_gaps` returns exactly the columns `a ≤ i < b` (in order) and refuses iff `b < a`;
+`remove_gaps` returns exactly the columns without a gap (in order). -/
+theorem C11_gap_removal_spec (n : Nat) (t : Trace) (a b : Nat) (h : findTerminalGaps n t = .ok (a, b)) :
+    (b < a → removeTerminalGaps n t = .error .valueError) ∧
+    (a ≤ b → ∃ t', removeTerminalGaps n t = .ok t' ∧ ∀ j, t'[j]? = if a + j < b then t[a + j]? else none) ∧
+    (removeGaps t).Sublist t ∧ (∀ c, c ∈ removeGaps t ↔ c ∈ t ∧ ∀ x ∈ c, x ≠ none) :=
+  ⟨(removeTerminalGaps_spec n t a b h).1, (removeTerminalGaps_spec n t a b h).2, (removeGaps_spec t).1, (removeGaps_spec t).2⟩
+
+/-- `get_sequence_identity` (all three modes) = number of columns whose codes — computed from that column alone —
+are one and the same symbol (`colMatch_iff`), over the length the mode prescribes; the length is never 0. -/
+theorem C11_identity_spec (seqs : List (List Nat)) (t : Trace) (mode : IdMode) (m len : Nat)
+    (h : identity seqs t mode = .ok (m, len)) :
+    m = (t.filter fun c => colMatch (colCodes seqs c)).length ∧ 0 < len ∧
+    (∀ col, colMatch col = true ↔ col ≠ [] ∧ ∃ a, ∀ x ∈ col, x = some a) ∧
+    (match mode with
+      | .all => len = t.length
+      | .notTerminal => ∃ a b, findTerminalGaps seqs.length t = .ok (a, b) ∧ a < b ∧ len = b - a
+      | .shortest => seqs ≠ [] ∧ len = minL (seqs.map List.length) ∧ minL (seqs.map List.length) ∈ seqs.map List.length ∧
+          ∀ x ∈ seqs.map List.length, minL (seqs.map List.length) ≤ x) := by
+  obtain ⟨h1, h2, h3⟩ := identity_spec seqs t mode m len h
+  refine ⟨h1, h2, colMatch_iff, ?_⟩
+  cases mode with
+  | all => exact h3
+  | notTerminal => exact h3
+  | shortest =>
+    obtain ⟨hne, hl⟩ := h3
+    have hne' : seqs.map List.length ≠ [] := by simpa using hne
+    exact ⟨hne, hl, (minL_spec _ hne').1, (minL_spec _ hne').2⟩
+
+/-- `score(alignment, matrix, (go, ge), terminal_penalty)` = similarity of all unordered non-gap pairs summed column
+by column + for every sequence the affine cost `go + (L − 1)·ge` of each maximal gap run of length `L` between
+the bounds (the whole alignment with terminal penalty, the `find_terminal_gaps` bounds without). -/
+theorem C11_score_spec (M : List (List Int)) (go ge : Int) (terminal : Bool) (seqs : List (List Nat)) (t : Trace) (v : Int)
+    (h : score M go ge terminal seqs t = .ok v) :
+    ∃ sims a b, mapE (colPairScore M) (t.map (colCodes seqs)) = .ok sims ∧
+      (terminal = true → a = 0 ∧ b = t.length) ∧
+      (terminal = false → seqs ≠ [] → findTerminalGaps seqs.length t = .ok (a, b)) ∧
+      v = isum sims + isum ((seqs.zipIdx).map fun p =>
+            isum ((gapRuns ((sliceCols t a b).map (codeOf p.1 p.2))).map (runCost go ge))) :=
+  score_spec M go ge terminal seqs t v h
+
+example : findTerminalGaps 2 [[some 0, none], [some 1, none], [some 2, none]] = .ok (3, 0) := by decide
+example : identity [[0, 1, 2], [0, 2]] [[some 0, some 0], [some 1, none], [some 2, some 1]] .notTerminal = .ok (2, 3) := by decide
+example : score [[1, 0], [0, 1]] (-5) (-2) true [[0, 1, 1, 0], [0, 0]] [[some 0, some 0], [some 1, none], [some 2, none], [some 3, some 1]]
+    = .ok (-5) := by decide
+example : gapRuns [some 0, none, none, some 1, none] = [2, 1] := by decide
+example : runCost (-5) (-2) 2 = -7 := by decide
 
 /-! ## CIGAR -/
 
@@ -82,6 +186,32 @@ theorem C11_cigar_roundtrip_string (o : WOpts) (refSeq segSeq : List Nat) (t : P
       readCigar ((firstRef t').getD 0) (printOps ops) = .ok (if o.hc then shiftSeg a t' else t') := by
   obtain ⟨t', a, h1, h2, h3⟩ := cigar_roundtrip o refSeq segSeq t ops hf hw
   exact ⟨t', a, h1, h2, by simp [readCigar, parse_print, h3]⟩
+
+/-- Which traces the writer accepts: `write_alignment_to_cigar` produces a CIGAR **iff** `acceptB` holds — the written part
+exists (the segment has an aligned base, `trimSeg_ok_iff`) and is non-empty, no column is a double gap, every intron
+is `0 ≤ start < stop` and covers only columns with a segment gap, with `distinguish_matches` all indices are inside
+the sequences, and the last aligned segment base lies inside the segment. -/
+theorem C11_cigar_accept (o : WOpts) (refSeq segSeq : List Nat) (t : PTrace) :
+    ((∃ ops, writeOps o refSeq segSeq t = .ok (some ops)) ↔ acceptB o refSeq.length segSeq.length t = true) ∧
+    ((∃ t', trimSeg t = .ok t') ↔ ∃ c ∈ t, c.2.isSome = true) :=
+  ⟨writeOps_accept_iff o refSeq segSeq t, trimSeg_ok_iff t⟩
+
+/-- unconditional round trip: every accepted trace with consecutive indices is written and read back unchanged -/
+theorem C11_cigar_roundtrip_total (o : WOpts) (refSeq segSeq : List Nat) (t : PTrace)
+    (hf : ∃ rp sp, Follows rp sp t) (ha : acceptB o refSeq.length segSeq.length t = true) :
+    ∃ ops t' a, writeOps o refSeq segSeq t = .ok (some ops) ∧ written o t = some t' ∧ firstSeg t' = some a ∧
+      readCigar ((firstRef t').getD 0) (printOps ops) = .ok (if o.hc then shiftSeg a t' else t') := by
+  obtain ⟨ops, hw⟩ := (writeOps_accept_iff o refSeq segSeq t).2 ha
+  obtain ⟨t', a, h1, h2, h3⟩ := cigar_roundtrip o refSeq segSeq t ops hf hw
+  refine ⟨ops, t', a, hw, ?_, h2, by simp [readCigar, parse_print, h3]⟩
+  unfold written
+  by_cases hitg : o.itg = true
+  · simp only [hitg, if_true] at h1 ⊢; cases h1; rfl
+  · simp only [hitg, if_false, Bool.false_eq_true] at h1 ⊢; rw [h1]
+
+example : acceptB ⟨[(3, 4)], true, true, false⟩ 7 5
+    [(some 1, none), (some 2, some 1), (some 3, none), (some 4, some 2), (none, some 3), (some 5, none)] = true := by decide
+example : acceptB ⟨[], false, false, true⟩ 7 5 [(some 1, none), (none, none)] = false := by decide
 
 -- non-vacuity: the docstring example of cigar.py in small (terminal gaps, a deletion inside an intron, clipped ends)
 example : writeOps ⟨[(3, 4)], true, true, false⟩ [0, 1, 2, 3, 0, 1, 2] [3, 2, 3, 1, 1]
@@ -155,6 +285,17 @@ theorem C11_msa_invariant {al : List Nat → List Nat → PTrace} {g : Nat} {seq
       All₂ (fun s row => row.filterMap id = List.range s.length) seqs res.rows :=
   msa_invariant tree hin hv hperm
 
+/-- the **returned, re-ordered** alignment: `order` is a permutation of `0 … n−1`, the sequences are the inputs in input
+order, and the trace is valid — `n` entries per column, every row strictly increasing (row `k` visits exactly
+`0 … len(input k) − 1`), no column of gaps only (re-ordering the rows by `argsort(order)` only permutes them). -/
+theorem C11_msa_final {al : List Nat → List Nat → PTrace} {g : Nat} {seqs : List Row} (tree : GTree)
+    (hin : ∀ s ∈ seqs, ∀ c ∈ s, c ≠ g) (hv : AllValid al g seqs tree)
+    (hperm : tree.leaves.Perm (List.range seqs.length)) :
+    ∃ res, alignMultiple al g seqs tree = .ok (some res) ∧ res.order = tree.leaves ∧
+      res.order.Perm (List.range seqs.length) ∧ res.seqs = seqs ∧ Valid seqs.length res.trace ∧
+      ∀ k (hk : k < seqs.length), covered res.trace k = List.range seqs[k].length :=
+  msa_final tree hin hv hperm
+
 -- non-vacuity: two sequences, one merge
 example : GlobalValid [(some 0, some 0), (some 1, none), (some 2, some 1)] 3 2 := by
   refine ⟨by decide, by decide, ?_⟩
@@ -162,5 +303,22 @@ example : GlobalValid [(some 0, some 0), (some 1, none), (some 2, some 1)] 3 2 :
 example : mergeGroups 4 [(some 0, some 0), (some 1, none), (some 2, some 1)] [[0, 1, 2]] [[0, 2]]
     = .ok [[0, 1, 2], [0, 4, 2]] := by decide
 example : (GTree.node (.leaf 1) (.leaf 0)).leaves.Perm (List.range 2) := by decide
+
+/-- a concrete aligner answer for the hypotheses of `C11_msa_invariant` / `C11_msa_final` -/
+def exAl : List Nat → List Nat → PTrace := fun _ _ => [(some 0, some 0), (some 1, none), (some 2, some 1)]
+
+example : AllValid exAl 4 [[0, 1, 2], [0, 2]] (.node (.leaf 0) (.leaf 1)) := by
+  refine ⟨trivial, trivial, ?_⟩
+  intro o1 r1 o2 r2 h1 h2
+  simp [progressive] at h1 h2
+  obtain ⟨rfl, rfl⟩ := h1
+  obtain ⟨rfl, rfl⟩ := h2
+  refine ⟨by decide, by decide, ?_⟩
+  intro c hc
+  simp [exAl] at hc
+  rcases hc with rfl | rfl | rfl <;> simp
+
+example : (alignMultiple exAl 4 [[0, 1, 2], [0, 2]] (.node (.leaf 0) (.leaf 1))).toOption.join.map (·.trace)
+    = some [[some 0, some 0], [some 1, none], [some 2, some 1]] := by decide
 
 end BiotiteModel.C11
